@@ -62,7 +62,14 @@ Inductive sop :=
 | SDelete (cs : list N) (a b : Z)
 | SGC
 | SDelChan (cs : list N)
-| SReopen.
+| SReopen
+| SWriteFault (w : N)
+    (* a Write that hit an I/O fault: it returns an error, commits nothing, and the writer
+       is closed (as cesium.Writer does on any error): what it had committed stays *)
+| SWriteTF (w : N) (stamps : list Z) (c : N)
+    (* a Write of an always-persist writer during which the index Truncate of channel c
+       failed: every channel of the frame is committed (in memory), channel c's commit did
+       not reach its index file, the Write returns the error and the writer is closed *).
 
 Record chan_case := mkChan {
   cc_key : N;
@@ -334,12 +341,32 @@ Definition sstep (s : sstate) (o : sop) : sstate :=
   | SGC => s
   | SDelChan cs => (upd_chs chs cs (fun x => mkSch (sc_idx x) false [] false), ws)
   | SReopen => (map (fun kc => (fst kc, mkSch (sc_idx (snd kc)) (sc_live (snd kc)) (sc_data (snd kc)) false)) chs, [])
+  | SWriteFault w =>
+      match assoc ws w with
+      | Some (cs, MLazy, _) =>
+          (upd_chs chs cs (fun x => mkSch (sc_idx x) (sc_live x) (sc_data x) false), assoc_del ws w)
+      | Some _ => (chs, assoc_del ws w)
+      | None => s
+      end
+  | SWriteTF w stamps c =>
+      match assoc ws w with
+      | Some (cs, MAlways, _) =>
+          (* the Write as a whole failed: none of its samples counts as durably committed, on
+             any channel of the frame, until a later persist of that channel *)
+          (upd_chs chs cs (fun x => mkSch (sc_idx x) (sc_live x) (zadd (sc_data x) stamps) true),
+           assoc_del ws w)
+      | _ => s
+      end
   end.
 
 Fixpoint strace (s : sstate) (l : list (sop * bool)) : list sstate :=
   s :: match l with
        | [] => []
-       | (o, fails) :: r => strace (if fails then s else sstep s o) r
+       | (o, fails) :: r =>
+           strace (match o with
+                   | SWriteFault _ | SWriteTF _ _ _ => sstep s o   (* report an error AND take effect *)
+                   | _ => if fails then s else sstep s o
+                   end) r
        end.
 
 Definition sample_value (c : N) (x : sch) (t : Z) : Z :=
